@@ -286,6 +286,12 @@ def enabled(w, guard_used):
                     sts.append(("out", nxt, n, tgt))
         if k == "ten":
             sts.append(("iadd", n))
+            # in-place updates whose other operand is a caller array (writeable, read-only, or a view)
+            for src in names:
+                if w.kind[src] in ("arr", "npv") and np.shape(w.s[src]) == w.s[n].shape:
+                    sts.append(("iadd_arr", n, src))
+                    if src == "R":
+                        sts.append(("set_arr", n, src))
             sts.append(("backward", n))
             sts.append(("clear", n))
         sts.append(("fail", n))
@@ -308,6 +314,8 @@ def render(st):
         "tview": lambda: "%s = %s[1:]" % (st[1], st[2]),
         "out": lambda: "%s = mg.add(%s, 1.0, out=%s)" % (st[1], st[2], st[3]),
         "iadd": lambda: "%s += 1.0" % st[1],
+        "iadd_arr": lambda: "%s += %s" % (st[1], st[2]),
+        "set_arr": lambda: "%s[...] = %s" % (st[1], st[2]),
         "backward": lambda: "%s.backward()" % st[1],
         "clear": lambda: "%s.clear_graph()" % st[1],
         "fail": lambda: "try: mg.matmul(%s, np.zeros((9, 9)))\nexcept ValueError: pass" % st[1],
@@ -360,6 +368,15 @@ def apply(w, st):
             t += 1.0
             s[st[1]] = t
             w.enter(t.data)
+        elif k in ("iadd_arr", "set_arr"):
+            t = s[st[1]]
+            src = s[st[2]]
+            if k == "iadd_arr":
+                t += src
+            else:
+                t[...] = src
+            s[st[1]] = t
+            w.enter(t.data, src)
         elif k == "backward":
             w.mark_cleared(s[st[1]])
             s[st[1]].backward()
@@ -428,7 +445,7 @@ def run_history(wkind, h):
     guard_used = False
     for i, st in enumerate(h):
         st = tuple(st)
-        ro_before = st[0] == "iadd" and not w.s[st[1]].data.flags.writeable
+        ro_before = st[0] in ("iadd", "iadd_arr", "set_arr") and not w.s[st[1]].data.flags.writeable
         r = apply(w, st)
         if r is not None and r[0] == "raised":
             if st[0] in ("backward", "clear", "bwall") and r[1].startswith("InvalidBackprop"):
@@ -493,7 +510,7 @@ def explore(wkind, prefix, depth, acc):
             continue
         acc.outcome("ok")
         acc.inc("traces")
-        if any(s[0] in ("backward", "clear", "bwall", "del", "fail", "fail_fpe", "fail_idx") for s in h) and any(s[0] in ("mul", "alias", "out", "tview", "iadd", "setshape") for s in h):
+        if any(s[0] in ("backward", "clear", "bwall", "del", "fail", "fail_fpe", "fail_idx") for s in h) and any(s[0] in ("mul", "alias", "out", "tview", "iadd", "iadd_arr", "set_arr", "setshape") for s in h):
             acc.nontrivial.add(base.stable_hash((wkind, h)))
         if len(acc.samples) < 2 and len(h) == depth:
             acc.samples.append("[%s] " % wkind + "; ".join(render(s) for s in h))
